@@ -80,3 +80,27 @@
             if j == c { assert(a0.contains(nm(v0, i))); } else { assert(nm(v, j) == nm(v0, j)); }
         }
     }
+@fn source_names_of -> r
+    ensures forall|j: int| 0 <= j < linear_constraints@.len() && nm(linear_constraints@, j).len() > 0 ==> r.has(#[trigger] nm(linear_constraints@, j)),
+        forall|k: Seq<char>| #[trigger] r.has(k) ==> k.len() > 0 && named_before(linear_constraints@, linear_constraints@.len() as int, k),
+@fn source_names_of @loop 1
+    invariant vx_n1 == linear_constraints@.len(),
+        forall|j: int| 0 <= j < vx_i1 && nm(linear_constraints@, j).len() > 0 ==> vx_set1.has(#[trigger] nm(linear_constraints@, j)),
+        forall|k: Seq<char>| #[trigger] vx_set1.has(k) ==> k.len() > 0 && named_before(linear_constraints@, vx_i1 as int, k),
+@fn source_names_of @before "let vx_keep1"
+    let ghost s0 = vx_set1;
+@fn source_names_of @before "if vx_keep1"
+    proof {
+        assert forall|k: Seq<char>| #[trigger] s0.has(k) implies named_before(linear_constraints@, vx_i1 + 1, k) by {
+            let j = choose|j: int| 0 <= j < vx_i1 && #[trigger] nm(linear_constraints@, j) == k;
+            assert(nm(linear_constraints@, j) == k);
+        }
+    }
+@fn source_names_of @after "vx_set1.insert"
+    proof {
+        assert(named_before(linear_constraints@, vx_i1 + 1, nm(linear_constraints@, vx_i1 as int))) by { assert(nm(linear_constraints@, vx_i1 as int) == nm(linear_constraints@, vx_i1 as int)); }
+        assert(nm(linear_constraints@, vx_i1 as int).len() > 0);
+        assert forall|k: Seq<char>| #[trigger] vx_set1.has(k) implies k.len() > 0 && named_before(linear_constraints@, vx_i1 + 1, k) by {
+            if k != nm(linear_constraints@, vx_i1 as int) { assert(s0.has(k)); }
+        }
+    }
